@@ -81,3 +81,104 @@ pub fn rhist_case(t: &mut Toks) -> String {
   }
   format!("outs={}", if outs.is_empty() { "_".to_string() } else { outs.join(",") })
 }
+
+// ---------------------------------------------------------------------------
+// histories of observers on one object, and pairs
+// ---------------------------------------------------------------------------
+use crate::tree::fmt_map;
+
+pub fn run_hop(obj: &mut BoxSource, op: &str) -> String {
+  match op {
+    "src" => format!("T{}", hex(obj.source().as_bytes())),
+    "buf" => format!("T{}", hex(&obj.buffer())),
+    "size" => format!("n{}", obj.size()),
+    "rope" => format!("T{}", hex(obj.rope().to_string().as_bytes())),
+    "m1" => format!("M{}", fmt_map(&obj.map(&MapOptions::new(true)))),
+    "m0" => format!("M{}", fmt_map(&obj.map(&MapOptions::new(false)))),
+    "s10" | "s00" | "s11" | "s01" => {
+      let c = &op[1..2] == "1";
+      let f = &op[2..3] == "1";
+      let (e, g) = record_stream(obj, c, f);
+      format!("E{}@{}", e, g)
+    }
+    "hash" => {
+      let mut h = RecHasher::default();
+      obj.update_hash(&mut h);
+      format!("H{}", if h.events.is_empty() { "_".to_string() } else { h.events.join(",") })
+    }
+    "cl" => {
+      let c = obj.clone();
+      *obj = c;
+      "-".to_string()
+    }
+    k => panic!("hop {}", k),
+  }
+}
+
+fn guarded_hop(obj: &mut BoxSource, op: &str) -> String {
+  let r = std::panic::catch_unwind(std::panic::AssertUnwindSafe(|| run_hop(obj, op)));
+  r.unwrap_or_else(|_| "PANIC".to_string())
+}
+
+fn parse_hops<'a>(t: &mut Toks<'a>) -> Vec<&'a str> {
+  let n = t.num();
+  (0..n).map(|_| t.next()).collect()
+}
+
+/// `thist`: reference = a fresh copy of the object per call; `chist`: reference = the wrapped source.
+pub fn hist_case(line: &str, wrapped_ref: bool) -> String {
+  let mut t = Toks::new(line);
+  t.next();
+  t.next();
+  let start = t.pos;
+  let mut ctx = Ctx::default();
+  let mut obj = build(&mut t, &mut ctx).boxed();
+  let end = t.pos;
+  let ops = parse_hops(&mut t);
+  let mut out = Vec::new();
+  for (i, op) in ops.iter().enumerate() {
+    out.push(format!("a{}={}", i, guarded_hop(&mut obj, op)));
+  }
+  // reference answers, each on a freshly built object
+  for (i, op) in ops.iter().enumerate() {
+    let mut t2 = Toks::new(line);
+    t2.pos = start;
+    if wrapped_ref {
+      assert_eq!(t2.next(), "cached");
+      t2.next();
+    }
+    let _ = end;
+    let mut ctx2 = Ctx::default();
+    let mut fresh = build(&mut t2, &mut ctx2).boxed();
+    out.push(format!("r{}={}", i, guarded_hop(&mut fresh, op)));
+  }
+  out.join(" ")
+}
+
+const FINAL_OPS: [&str; 7] = ["src", "buf", "m1", "m0", "s10", "s00", "hash"];
+
+pub fn pair_case(t: &mut Toks) -> String {
+  let _relaxed = t.next();
+  let mut ctx = Ctx::default();
+  let mut a = build(t, &mut ctx).boxed();
+  let opsa = parse_hops(t);
+  let mut ctx_b = Ctx::default();
+  let mut b = build(t, &mut ctx_b).boxed();
+  let opsb = parse_hops(t);
+  for op in opsa {
+    guarded_hop(&mut a, op);
+  }
+  for op in opsb {
+    guarded_hop(&mut b, op);
+  }
+  let eq = PartialEq::eq(&a, &b);
+  let eqr = PartialEq::eq(&b, &a);
+  let mut out = vec![format!("eq={}", eq as u8), format!("eqr={}", eqr as u8)];
+  for (i, op) in FINAL_OPS.iter().enumerate() {
+    out.push(format!("A{}={}", i, guarded_hop(&mut a, op)));
+  }
+  for (i, op) in FINAL_OPS.iter().enumerate() {
+    out.push(format!("B{}={}", i, guarded_hop(&mut b, op)));
+  }
+  out.join(" ")
+}
